@@ -505,8 +505,24 @@ func c12BlobFns(c *Ctx) {
 				}) {
 					if oc, _, ok := CallResult(l); ok && strings.HasSuffix(CalleeName(oc.Common()), ".ObjectPath") {
 						_, f, base, isF := FieldOf(oc.Call.Args[len(oc.Call.Args)-1])
-						if isF && f == "Oid" && ResultOfCall(base, dec, 0) {
-							okp = true
+						if isF && f == "Oid" {
+							// the pointer itself, or a variable that holds nothing but it (a helper's result, once expanded)
+							only, some := true, false
+							for _, bl := range p.LeavesNoFields(base, func(v ssa.Value) FlowAct {
+								if _, _, ok := CallResult(v); ok {
+									return Stop
+								}
+								return Descend
+							}) {
+								if ResultOfCall(bl, dec, 0) {
+									some = true
+								} else if !IsNilConst(bl) {
+									only = false
+								}
+							}
+							if ResultOfCall(base, dec, 0) || (some && only) {
+								okp = true
+							}
 						}
 					}
 				}
